@@ -4,6 +4,17 @@
 import jax.numpy as jnp
 
 
+def _time_to_step(t: float, dt: float) -> int:
+    """Return the index of the time step that starts at time `t`.
+
+    `t / dt` is truncated, unless it is an integer up to floating point error (e.g.
+    `0.3 / 0.025 = 11.999999999999998` is step 12, not step 11).
+    """
+    steps = t / dt
+    nearest = round(steps)
+    return int(nearest) if abs(steps - nearest) < 1e-6 else int(steps)
+
+
 def step_current(
     i_delay: float,
     i_dur: float,
@@ -20,8 +31,8 @@ def step_current(
     `.stimulate()`, but not to `integrate(..., currents=)`.
     """
     dt = delta_t
-    window_start = int(i_delay / dt)
-    window_end = int((i_delay + i_dur) / dt)
+    window_start = _time_to_step(i_delay, dt)
+    window_end = _time_to_step(i_delay + i_dur, dt)
     time_steps = int(t_max // dt) + 2
     current = jnp.zeros((time_steps,)) + i_offset
     return current.at[window_start:window_end].set(i_amp)
@@ -44,8 +55,8 @@ def datapoint_to_step_currents(
     """
     dim = len(i_amp)
     dt = delta_t
-    window_start = int(i_delay / dt)
-    window_end = int((i_delay + i_dur) / dt)
+    window_start = _time_to_step(i_delay, dt)
+    window_end = _time_to_step(i_delay + i_dur, dt)
     time_steps = int(t_max // dt) + 2
     current = jnp.zeros((time_steps, dim)) + i_offset
     return current.at[window_start:window_end, :].set(i_amp).T
